@@ -245,6 +245,11 @@ def execute(spec, w, ctx):
             intact = common.fields_canon(live[d], F) == snaps[d]
             w.probe("caller-data-intact-at-interrupt" if intact else "caller-data-MUTATED-at-interrupt")
             w.probe("interrupt-in:" + str(out.get("site", "?")).split(":")[0])
+            if handle is not None and not op.get("kill") and intact:
+                # Ctrl-C caught by the session: would the *same object* still solve correctly?  Outside the
+                # property's quantifier (crash points), so a probe, not an invariant.
+                again = ops.summarize(ops.solve_handle(w, handle, {"step_cap": 20 * (r["steps"] or 0) + 20000}))
+                w.probe("same-object-solve-after-interrupt-" + ("equals-reference" if ops.same_result(again, r) else "DIFFERS"))
             # the client reloads what the aborted call may have damaged
             _reload(d)
             return None
